@@ -1,6 +1,8 @@
 (* VptrSource.v — virtual_ptr(Other&&) and virtual_ptr::final(Other&&), as TRANSLATED from core.hpp on this run
-   (Gen/GenVptr.v) and interpreted by Model/MiniVptr.v, are Model.VirtualPtr.ctor / final_: same result AND same log of
-   what is read, for every policy configuration (supported or not), every state and every argument. *)
+   (Gen/GenVptr.v) and interpreted by Model/MiniVptr.v, are Model.VirtualPtr.ctor / final_, for every policy configuration
+   (supported or not), every state and every argument: the constructor with the same result AND the same log of what is read;
+   `final` with the same result and a log that contains nothing the model's function does not read (the order in which `final`
+   reads the static v-table pointer and runs its checks is not fixed: both orders are `final_`). *)
 From Coq Require Import List NArith Bool.
 From Y2 Require Import Model.VirtualPtr Model.MiniVptr Gen.GenVptr.
 Import ListNotations.
@@ -22,10 +24,31 @@ Proof.
     destruct h, p, i; cbn; rewrite ?E; split_reads; reflexivity.
 Qed.
 
-Theorem src_final cfg st a : run_final gen_final cfg st a = final_ cfg st a.
+(* final: the same result ... *)
+Theorem src_final_result cfg st a : snd (run_final gen_final cfg st a) = snd (final_ cfg st a).
 Proof.
   destruct cfg as [h p i], a as [o d s src ctrl box].
   unfold run_final, final_, final_with, gen_final. cbn [vf_traits vf_body final_ids a_src a_stat a_dyn].
   destruct src; cbn [final_ids]; destruct (N.eqb d s) eqn:E;
     destruct h, p, i; cbn; rewrite ?E; split_reads; reflexivity.
+Qed.
+
+(* ... and it reads nothing that final_ does not read *)
+Theorem src_final_reads cfg st a : incl (fst (run_final gen_final cfg st a)) (fst (final_ cfg st a)).
+Proof.
+  destruct cfg as [h p i], a as [o d s src ctrl box].
+  unfold run_final, final_, final_with, gen_final. cbn [vf_traits vf_body final_ids a_src a_stat a_dyn].
+  destruct src; cbn [final_ids]; destruct (N.eqb d s) eqn:E;
+    destruct h, p, i; cbn; rewrite ?E; split_reads;
+    intros x Hx; cbn [In] in *; tauto.
+Qed.
+
+(* in a supported configuration both functions succeed or fail together, so on success the logs have the same members *)
+Theorem src_final_ok cfg st a p : snd (final_ cfg st a) = Ok p -> incl (fst (final_ cfg st a)) (fst (run_final gen_final cfg st a)).
+Proof.
+  destruct cfg as [h pl i], a as [o d s src ctrl box].
+  unfold run_final, final_, final_with, gen_final. cbn [vf_traits vf_body final_ids a_src a_stat a_dyn].
+  destruct src; cbn [final_ids]; destruct (N.eqb d s) eqn:E;
+    destruct h, pl, i; cbn; rewrite ?E; split_reads;
+    intros H x Hx; cbn [In snd] in *; try discriminate; tauto.
 Qed.
